@@ -350,6 +350,43 @@ PAIRS = [
 ]
 
 
+def handler_effects_rule(eng: Engine, ck: Check, rule: str, only: Optional[set] = None, pinned=None, got=None):
+    """Every handler's effect on the replica equals the pinned one (tables/room_effects.json).  `only`: restrict to some handler keys --
+    other properties rely on single fields of the replica (C05: the privileged flag the upload ranking reads)."""
+    pinned = pinned if pinned is not None else json.load(open(TABLE))['handlers']
+    got = got if got is not None else extract(eng)
+    rm = eng.cls('RoomManager', ROOMM)
+    um = eng.cls('UserManager', USERM)
+
+    def norm(effs):
+        return sorted(json.dumps({k: e[k] for k in ('on', 'field', 'kind', 'value', 'if')}, sort_keys=True) for e in effs)
+    n = 0
+    for key, want in pinned.items():
+        if only is not None and key not in only:
+            continue
+        have = got.get(key)
+        if have is None:
+            continue
+        n += 1
+        clsname, msg = key.split(':')
+        cls = rm if clsname == 'RoomManager' else um
+        h = cls.methods[have['handler']]
+        ck.visited(h)
+        w, g = norm(want['effects']), norm(have['effects'])
+        missing = [json.loads(x) for x in w if x not in g]
+        extra = [json.loads(x) for x in g if x not in w]
+
+        def show(e):
+            s = f"{e['on']}.{e['field']} {e['kind']} {e['value']}"
+            if e['if']:
+                s += f" if {e['if']}"
+            return s
+        ck.ob(rule, h, h.node, f'{msg}: the handler\'s effect on the replica is the documented one '
+              f'({"; ".join(show(e) for e in want["effects"]) or "none"})', not missing and not extra,
+              f'expected but not found: {[show(e) for e in missing]}; found but not expected: {[show(e) for e in extra]}', construct=f'effects of {key}')
+    return n
+
+
 def run(eng: Engine, ck: Check):
     repo = eng.repo
     pinned = json.load(open(TABLE))['handlers']
@@ -383,28 +420,7 @@ def run(eng: Engine, ck: Check):
     ck.floor('R-C19-EXHAUSTIVE', len(pinned), 26)
 
     # ---- R-C19-EFFECTS
-    def norm(effs):
-        return sorted(json.dumps({k: e[k] for k in ('on', 'field', 'kind', 'value', 'if')}, sort_keys=True) for e in effs)
-    for key, want in pinned.items():
-        have = got.get(key)
-        if have is None:
-            continue
-        clsname, msg = key.split(':')
-        cls = rm if clsname == 'RoomManager' else um
-        h = cls.methods[have['handler']]
-        ck.visited(h)
-        w, g = norm(want['effects']), norm(have['effects'])
-        missing = [json.loads(x) for x in w if x not in g]
-        extra = [json.loads(x) for x in g if x not in w]
-
-        def show(e):
-            s = f"{e['on']}.{e['field']} {e['kind']} {e['value']}"
-            if e['if']:
-                s += f" if {e['if']}"
-            return s
-        ck.ob('R-C19-EFFECTS', h, h.node, f'{msg}: the handler\'s effect on the replica is the documented one '
-              f'({"; ".join(show(e) for e in want["effects"]) or "none"})', not missing and not extra,
-              f'expected but not found: {[show(e) for e in missing]}; found but not expected: {[show(e) for e in extra]}', construct=f'effects of {key}')
+    handler_effects_rule(eng, ck, 'R-C19-EFFECTS', None, pinned, got)
     # paired handlers have opposite kinds on the same field — needs no table
     for a, b, field in PAIRS:
         ea = [e for e in got.get(a, {}).get('effects', []) if e['field'] == field and e['kind'] in OPPOSITE]
@@ -471,3 +487,6 @@ def run(eng: Engine, ck: Check):
     acks = [c for c in calls_in(pm.node) if 'PrivateChatMessageAck' in unparse(c) and call_name(c) in ('send_server_messages', 'queue_server_messages')]
     ok = len(acks) == 1 and not eng.guards_at(pm, acks[0]) and 'message.chat_id' in unparse(acks[0])
     ck.ob('R-C19-BLOCK', pm, pm.node, 'a private message is acknowledged (chat_id) even when the sender is blocked', ok, '', construct='private ack before block')
+    from . import defs as _d19
+    _d19.string_decoding_tolerant(eng, ck, 'R-C19-EXHAUSTIVE', 'an announcement naming such a user must still reach its handler, or the view misses it')
+    _d19.enum_members_distinct(eng, ck, 'R-C19-EFFECTS', [('BlockingFlag', 'user/model.py'), ('UserStatus', 'user/model.py')], 'a message is reported unless its sender is blocked for THAT kind of message')
